@@ -81,7 +81,7 @@ def tick_rules(ctx, fs):
         if c.get('k') == 'DeclRefExpr' and c.get('dloc') == flag['loc']:
             return 'delay'
         s_ = show(canon(c, env))
-        if s_.startswith('(!= ') and 'find' in s_ and 'pulses' in s_:
+        if (s_.startswith('(!= ') and 'find' in s_ or s_.startswith('(mcall ') and '::count ' in s_.split(')')[0] + ' ') and 'pulses' in s_:     # `find(k) != end()` is canonically `count(k)`
             if 'executor::s_atms' in s_ and 'executor::e_atms' not in s_:
                 return 'C_s'
             if 'executor::e_atms' in s_ and 'executor::s_atms' not in s_:
